@@ -495,6 +495,8 @@ def codec(ctx):
 
 
 def run(ctx):
+    import os
+    os.environ.setdefault("VERIF_OP_TIMEOUT", "120")   # per-operation watchdog of harness/common.h: a blocked peer becomes FAULT for that op
     ctx.check_proofs()
     codec(ctx)
     exe, log = core.build_harness("C10", "asan", extra=WRAP)
